@@ -68,6 +68,7 @@ func (a *Advance) ValidateWithContext(ctx context.Context) error {
 		validation.Field(&a.Description, validation.Required),
 		validation.Field(&a.Percent),
 		validation.Field(&a.Amount),
+		validation.Field(&a.Currency),
 		validation.Field(&a.Card),
 		validation.Field(&a.CreditTransfer),
 		validation.Field(&a.Ext),
